@@ -491,6 +491,32 @@ def main():
             ctx.case(cid, {"config": name, "first_vs_isolated": worst_d, "steps": steps})
             if worst_d > 1e-12:
                 ctx.violation("history_dependence:" + assembler.split("/")[0], "%s: first observation differs from the isolated value by %.3e" % (cid, worst_d), cid)
+    # the same space objects, one operator after the other with different explicit (regular, singular) orders: each must be the
+    # matrix of ITS orders (anything memoised per space / grid must carry the orders in its key)
+    for cfg in [OPS[0], OPS[3]] + ([OPS[1], OPS[2]] if not ctx.quick else []):
+        cid = "scripted:orders_on_shared_spaces:%s" % cfg[0]
+        if not ctx.want(cid):
+            continue
+        with ctx.guard(cid, "history:scripted"):
+            name, fam, op, tk, sk, k, assembler = cfg
+            g_ = M.to_grid(ms["octa_r1"])
+            trial, test = api.function_space(g_, *KA[tk]), api.function_space(g_, *KA[sk])
+            n = trial.global_dof_count
+            X = ctx.rng("X", n).normal(size=(n, 2))
+            seq = []
+            for o in ((4, 4), (6, 6), (3, 5), (4, 4)):
+                Pex = api.DefaultParameters()
+                Pex.quadrature.regular, Pex.quadrature.singular = o
+                got = np.array(O.boundary(api, fam, op, trial, test, test, k, parameters=Pex, assembler=assembler).weak_form() @ X)
+                iso = isolated(api, M, O, ms["octa_r1"], cfg, dict(get_globals(api), regular=o[0], singular=o[1]), X, "weak")
+                d_ = O.rel(got, iso)
+                seq.append([list(o), d_])
+                n_obs += 1
+                if d_ > 1e-12:
+                    ctx.violation("history_dependence:orders_on_shared_spaces:" + assembler.split("/")[0], "%s: the operator created with explicit orders %s on spaces that earlier carried operators of other orders "
+                                  "differs from the isolated matrix by %.3e (sequence so far %s)" % (cid, o, d_, seq), cid)
+                    break
+            ctx.case(cid, {"config": name, "sequence": seq})
     ctx.lap("scripted_histories")
 
     # ------------------------------------------------------------------ constructor sweep: explicit parameters reach every assembler object
